@@ -469,7 +469,8 @@ class Tree:
             assert match is None
             res = self._nodes_by_data_id.get(data_id)
             if res:
-                return res[max_results:] if max_results else res
+                # Return a copy: the caller must not modify the internal clone list
+                return res[:max_results] if max_results else res.copy()
             return []
 
         elif match is not None:
